@@ -41,6 +41,10 @@ def case_strategy(draw, quick=True):
     ploidy = {s: draw(st.sampled_from([2, 2, 4, 3])) for s in samples}
     inbreeding = {s: draw(st.sampled_from([0.0, 0.0, 0.1, 0.5])) for s in samples}
     reports = [sorted(set(draw(st.lists(st.sampled_from(REPORT_POOL), max_size=6)))) for _ in range(2)]
+    # a field requested alone (INFO-only / FORMAT-only) exercises the gating of the optional computations
+    if draw(st.booleans()):
+        reports[1] = [draw(st.sampled_from(["INFO/ACP", "INFO/AFP", "INFO/AOP", "INFO/AOPSUM", "AOPSUM", "INFO/SNVDP", "INFO/AFPRIOR", "FORMAT/ACP", "FORMAT/AFP",
+                                             "FORMAT/AOP", "FORMAT/GP", "FORMAT/GL", "FORMAT/SNVDP"]))]
     thr = draw(st.sampled_from([0.2, 0.2, 0.05, 0.9, 0.99]))
     # pedigree over the samples (only even ploidy individuals have parents here)
     ped = {}
@@ -106,7 +110,7 @@ def compare_internal(problems, label, rec, data, samples):
                 problems.append(Problem(label + ":rounding", "FORMAT %s of %s printed %s, internal %s" % (f.id, s, tok[:120], np.round(internal, 6).tolist()[:20])))
 
 
-def semantic(problems, label, rec, spec, case, fasta_seq):
+def semantic(problems, label, rec, spec, case, fasta_seq, aux=None):
     """Recompute what can be recomputed from the record itself and the inputs."""
     info = rec["INFO"]
     ref, alts = rec["REF"], rec["ALT"]
@@ -159,7 +163,13 @@ def semantic(problems, label, rec, spec, case, fasta_seq):
 
     def sample_sum(key):
         tot = None
-        for d in rec["samples"].values():
+        src = rec["samples"]
+        if aux is not None and any(key not in d for d in src.values()) and all(key in d for d in aux["samples"].values()):
+            # the sample-level field was not requested in this run: take it from the auxiliary run (same inputs and seed,
+            # same report set plus the FORMAT fields) provided the calls are identical
+            if all(aux["samples"][s_]["GT"] == src[s_]["GT"] for s_ in src):
+                src = aux["samples"]
+        for d in src.values():
             v = V.floats(d.get(key)) if d.get(key) is not None else None
             if v is None:
                 return None
@@ -208,7 +218,7 @@ def semantic(problems, label, rec, spec, case, fasta_seq):
             problems.append(Problem(label + ":INFO_SNVDP", "INFO SNVDP %s, samples sum to %s" % (info["SNVDP"], t)))
 
 
-def check_output(problems, label, text, spec, case, fasta_seq, workdir, prog_factory=None):
+def check_output(problems, label, text, spec, case, fasta_seq, workdir, prog_factory=None, aux_text=None):
     import pysam
 
     header, recs = CLI.split_vcf(text)
@@ -216,6 +226,14 @@ def check_output(problems, label, text, spec, case, fasta_seq, workdir, prog_fac
     for h in hp:
         problems.append(Problem(label + ":header", h))
     parsed = []
+    aux_recs = {}
+    if aux_text:
+        ah, arecs = CLI.split_vcf(aux_text)
+        ameta, _ = V.parse_header(ah)
+        for al in arecs:
+            ar, apr = V.check_record(al, ameta)
+            if ar is not None:
+                aux_recs[(ar["CHROM"], ar["POS"])] = ar
     for line in recs:
         rec, pr = V.check_record(line, meta)
         for x in pr[:3]:
@@ -223,7 +241,7 @@ def check_output(problems, label, text, spec, case, fasta_seq, workdir, prog_fac
         if rec is not None:
             parsed.append(rec)
             if not pr:
-                semantic(problems, label, rec, spec, case, fasta_seq)
+                semantic(problems, label, rec, spec, case, fasta_seq, aux=aux_recs.get((rec["CHROM"], rec["POS"])))
     # pysam must read the whole output
     path = os.path.join(workdir, label.replace("/", "_") + ".out.vcf")
     with open(path, "w") as fh:
@@ -241,6 +259,22 @@ def check_output(problems, label, text, spec, case, fasta_seq, workdir, prog_fac
     except Exception as e:  # pysam rejects the file
         problems.append(Problem(label + ":pysam_rejects", "pysam.VariantFile fails on the output: %r" % (e,)))
     return meta, parsed
+
+
+def needs_aux(report):
+    info_level = any(r in ("INFO/ACP", "INFO/AFP", "INFO/AOP", "INFO/AOPSUM", "AOPSUM", "INFO/SNVDP") for r in report)
+    has_format = any(r in ("ACP", "AFP", "FORMAT/ACP", "FORMAT/AFP") for r in report)
+    return info_level and not has_format
+
+
+def replace_report(args, report):
+    """Same command with FORMAT/ACP, FORMAT/AFP, FORMAT/AOP, FORMAT/SNVDP added to the report set."""
+    args = list(args)
+    i = args.index("--report")
+    j = i + 1
+    while j < len(args) and not str(args[j]).startswith("--"):
+        j += 1
+    return args[:j] + ["FORMAT/ACP", "FORMAT/AFP", "FORMAT/AOP", "FORMAT/SNVDP"] + args[j:]
 
 
 def nontrivial_record(rec, case):
@@ -269,7 +303,11 @@ def check_case(ctx, case):
                 if err is not None:
                     problems.append(Problem("assemble:raised:%s" % type(err).__name__, "assemble --report %s failed: %s" % (report, CLI.describe(err))))
                     return finish(ctx, case, problems, n_rec, n_nt)
-                meta, parsed = check_output(problems, "assemble", out, spec, case, fasta_seq, wd)
+                aux_text = None
+                if needs_aux(report):
+                    aux_out, aux_err = P.run("assemble", replace_report(a_args, report))
+                    aux_text = aux_out if aux_err is None else None
+                meta, parsed = check_output(problems, "assemble", out, spec, case, fasta_seq, wd, aux_text=aux_text)
                 n_rec += len(parsed)
                 n_nt += sum(1 for r in parsed if nontrivial_record(r, case) and report)
                 if len(parsed) != len(spec["loci"]):
@@ -299,7 +337,11 @@ def check_case(ctx, case):
                     if err is not None:
                         problems.append(Problem("%s:raised:%s" % (name, type(err).__name__), "%s --report %s failed on assemble output: %s" % (name, report, CLI.describe(err))))
                         return finish(ctx, case, problems, n_rec, n_nt)
-                    meta, parsed = check_output(problems, name, out, spec, case, fasta_seq, wd)
+                    aux_text = None
+                    if needs_aux(report):
+                        aux_out, aux_err = P.run(name, replace_report(c_args, report))
+                        aux_text = aux_out if aux_err is None else None
+                    meta, parsed = check_output(problems, name, out, spec, case, fasta_seq, wd, aux_text=aux_text)
                     n_rec += len(parsed)
                     n_nt += sum(1 for r in parsed if nontrivial_record(r, case) and report)
                     if not problems:
@@ -338,4 +380,4 @@ def replay(ctx, case):
 
 def run(ctx):
     q = ctx.quick
-    ctx.hyp("programs", case_strategy(q), check_case, 12 if q else 60)
+    ctx.hyp("programs", case_strategy(q), check_case, 30 if q else 100)
